@@ -79,6 +79,7 @@ def validate_trace(d, module, cfg_text, timeout=1800):
         res["coverage"] = json.loads(c[-1][0].replace('\\"', '"'))
         res["admitted"] = int(c[-1][1])
     res["flat"] = flat
+    res["also"] = [(int(a), b, c) for a, b, c in re.findall(r'<<"LAWBROKEN-ALSO", (\d+), "([^"]*)", "([^"]*)">>', flat)]
     res["accepted"] = r["ok"] and not m
     if not res["accepted"] and not m:
         raise Infra("trace rejected without a named law:\n" + r["out"][-4000:])
@@ -103,8 +104,8 @@ C17_CFG = ("SPECIFICATION TraceSpec\nCONSTANT Senders = {}\nCONSTANT Gov = \"gov
            "INVARIANT Coverage\nPOSTCONDITION TraceAccepted\nCHECK_DEADLOCK FALSE\n")
 
 C17_SIZES = {
-    "quick": dict(tree=[("", 2)], random=48, rlen=6, mc="CpcRegistry_mc.cfg", chunk=4000),
-    "thorough": dict(tree=[("0,3", 3), ("1,2,4,5", 2)], random=1200, rlen=10, mc="CpcRegistry_mc_thorough.cfg", chunk=3000),
+    "quick": dict(tree=[("", 2)], random=48, rlen=6, many="108", mc="CpcRegistry_mc.cfg", chunk=4000),
+    "thorough": dict(tree=[("0,3", 3), ("1,2,4,5", 2)], random=1200, rlen=10, many="108,100,101", mc="CpcRegistry_mc_thorough.cfg", chunk=3000),
 }
 
 
@@ -214,7 +215,7 @@ def check_c17(pid, tier, seed, replay):
         stats = {"Nodes": 0, "Probes": 0, "Accepted": 0, "Rejected": 0, "Traces": 0}
         runs = [(["registry", "-seed", str(seed), "-depth", str(depth), "-random", "0", "-cfgs", cfgs], "tree%d" % k)
                 for k, (cfgs, depth) in enumerate(sz["tree"])]
-        runs.append((["registry", "-seed", str(seed), "-depth", "0", "-random", str(sz["random"]), "-len", str(sz["rlen"]), "-scripted"], "rand"))
+        runs.append((["registry", "-seed", str(seed), "-depth", "0", "-random", str(sz["random"]), "-len", str(sz["rlen"]), "-scripted", "-many", sz["many"]], "rand"))
         for args, name in runs:
             dd = os.path.join(d, name)
             os.makedirs(dd)
@@ -250,6 +251,9 @@ def check_c17(pid, tier, seed, replay):
                 with open(os.path.join(rp, "tlc.out"), "w") as f:
                     f.write(r["out"][-20000:])
                 v.violation("%s/%s" % (group, detail), rp, "trace %s, operation %s" % (json.loads(tr[0]).get("tid", "trace"), json.loads(tr[idx]).get("txt", "genesis")))
+                for aline, agroup, adetail in r.get("also", []):
+                    if aline == line:   # the exposure law broken by the same line (same replay)
+                        v.violation("%s/%s" % (agroup, adetail), rp, "same line: trace %s, operation %s" % (json.loads(tr[0]).get("tid", "trace"), json.loads(tr[idx]).get("txt", "genesis")))
                 rejected_lines += 1
                 # go on without the offending node and its subtree (a broken genesis line drops its whole trace)
                 tr2 = drop_subtree(tr, idx) if idx > 0 else []
@@ -268,11 +272,13 @@ def check_c17(pid, tier, seed, replay):
                          "bond denom}, DeployStaking x 2 senders, UpdateParams x {gov: widen, empty, version 0; self-signed; forged authority}, "
                          "SetDisabled(each registered)} up to depth %s from each of 6 genesis configurations (exhaustive), plus %d random "
                          "sequences of %d operations with edge-case names/symbols/decimals/denoms, Retype and protocol-version fabrication, and 3 "
-                         "scripted scenarios (version downgrade refused, disable/enable, retype, redeploy, whitelist emptied / replaced); "
+                         "scripted scenarios (version downgrade refused, disable/enable, retype, redeploy, whitelist emptied / replaced), and the "
+                         "'many contracts' scenario(s) registering %s ERC-20 precompiles by real messages (9 per block) with probes after the "
+                         "99th / 100th / 101st / last; "
                          "probe inputs: name(), bech32 prefix view, EMPTY calldata with value 0 and 1, 1-3 byte calldata, top-level and through CALL / "
                          "STATICCALL / DELEGATECALL / CALLCODE proxies, plus the balance every candidate gains from the value probes; "
                          "evaluations = probe cells judged (address x mode x input x route); non-trivial = accepted (state-changing) operations"
-                         % ("/".join(str(dp) for _, dp in sz["tree"]), sz["random"], sz["rlen"]))
+                         % ("/".join(str(dp) for _, dp in sz["tree"]), sz["random"], sz["rlen"], sz["many"]))
         v.cov["samples"] = [json.loads(x).get("txt") for x in traces[0][1:6]]
         # binding self-test on the first tree
         first = traces[0]
